@@ -456,6 +456,27 @@ def directed_bitmap(w):
     ]
 
 
+def directed_bitmap_options(w):
+    """bitmap options changed between invocations (strike size, quantisation on/off, quantiser flags): the compressed
+    PNGs left by the earlier run must not survive; then a compression step killed mid-write, then a clean re-run"""
+    def setk(k, v):
+        def f(w):
+            w.opts[k] = v
+            w.log.append(dict(op="setopt", key=k, value=v))
+
+        return f
+
+    stem = w.sources()[0].stem
+    fmt = w.rng.choice(["cbdt", "sbix"])
+    return [
+        ([setk("color_format", fmt), setk("bitmap_resolution", 48), setk("use_pngquant", True), setk("use_zopflipng", False)], None),
+        ([setk("bitmap_resolution", 32)], None),
+        ([setk("use_pngquant", False)], None),
+        ([setk("use_pngquant", True), setk("pngquant_flags", "--speed 3 --quality 40-60")], None),
+        ([setk("bitmap_resolution", 40)], dict(tool="pngquant", target=stem, mode="truncate_kill", output=f"pngquant/{stem}.png")),
+    ]
+
+
 def directed_pngquant_declines(w):
     """pngquant declines the re-rendered bitmap (exit 99: quality too low / result larger): the wrapper must
     replace the earlier output by the unquantised bitmap, in the incremental build as in the clean one"""
@@ -531,7 +552,7 @@ def main(argv):
     n = 6 if tier == "quick" else 120
     seeds = [rng.getrandbits(40) for _ in range(n)]
     jobs = [(s, rng.randint(2, 4 if tier == "quick" else 6), None) for s in seeds]
-    jobs += [(rng.getrandbits(40), 0, directed_f17), (rng.getrandbits(40), 0, directed_f17_silent), (rng.getrandbits(40), 0, directed_f7), (rng.getrandbits(40), 0, directed_options), (rng.getrandbits(40), 0, directed_bitmap), (rng.getrandbits(40), 0, directed_pngquant_declines), (rng.getrandbits(40), 0, directed_torn_graph), (rng.getrandbits(40), 0, directed_switch_dir)]
+    jobs += [(rng.getrandbits(40), 0, directed_f17), (rng.getrandbits(40), 0, directed_f17_silent), (rng.getrandbits(40), 0, directed_f7), (rng.getrandbits(40), 0, directed_options), (rng.getrandbits(40), 0, directed_bitmap), (rng.getrandbits(40), 0, directed_bitmap_options), (rng.getrandbits(40), 0, directed_pngquant_declines), (rng.getrandbits(40), 0, directed_torn_graph), (rng.getrandbits(40), 0, directed_switch_dir)]
     with ThreadPoolExecutor(8) as ex:
         results = list(ex.map(lambda j: run_history(*j), jobs))
     known = known_ids("C09")
